@@ -30,7 +30,7 @@ def check(ctx):
     cov["traces_validated_against_impl"] += nnseg
     return conclude(ctx, "model_checking", cov, violations, ASSUME + [
         "real-network runs: 3 nodes per world on 127.0.0.1, connection-open timeout 1 s, quiescence = no command/event on any "
-        "node for 5 s; worlds that do not calm down within 60 s are not judged"])
+        "node for 8 s; worlds that do not calm down within 60 s or whose runtime was starved (>400 ms timer lag) are not judged"])
 
 
 def replay(ctx, path):
